@@ -222,6 +222,9 @@ class SubSpec(explore.Spec):
             for restored in (False, True):
                 for pubsub in ("record", "raise"):
                     out.append({"version": "2.2", "transport": "mqtt", "flavour": flavour, "restored": restored, "pubsub": pubsub, "cb": None, "in_prefix": "in/x"})
+        # other prefix shapes: empty, a single level, a prefix whose last level is empty
+        for prefix in ("", "m", "mys/", "/"):
+            out.append({"version": "2.2", "transport": "mqtt", "flavour": "sync", "restored": prefix == "mys/", "pubsub": "record", "cb": None, "in_prefix": prefix})
         return out
 
     def make_world(self, cfg):
